@@ -42,7 +42,7 @@ theorem dec_ext : ∀ f,
     obtain ⟨ih1, ih2, ih3, ih4, ih5⟩ := ih
     refine ⟨?_, ?_, ?_, ?_, ?_⟩
     · intro ty s v s' h
-      cases ty <;> simp only [decTy, mapOut_ok] at h ⊢
+      cases ty <;> simp only [decTy, mapOut_eq_ok] at h ⊢
       case bool => obtain ⟨a, ha, hh⟩ := h; cases hh; exact ⟨(a.1, X a.2 q), rbool _ _ _ _ ha, rfl⟩
       case i8 => obtain ⟨a, ha, hh⟩ := h; cases hh; exact ⟨(a.1, X a.2 q), ri8 _ _ _ _ ha, rfl⟩
       case i16 => obtain ⟨a, ha, hh⟩ := h; cases hh; exact ⟨(a.1, X a.2 q), ri16 _ _ _ _ ha, rfl⟩
@@ -64,7 +64,7 @@ theorem dec_ext : ∀ f,
           | struct fs => simp only at h ⊢; osplit_at h <;> grind
           | union vs => simp only at h ⊢; osplit_at h <;> grind
           | enum =>
-            simp only [mapOut_ok] at h ⊢
+            simp only [mapOut_eq_ok] at h ⊢
             obtain ⟨a, ha, hh⟩ := h; cases hh; exact ⟨(a.1, X a.2 q), ri32 _ _ _ _ ha, rfl⟩
           | typedef t => simp only at h ⊢; exact ih1 _ _ _ _ h
       case void => simp at h
@@ -152,7 +152,7 @@ theorem ext_mapOut_bin {α β : Type} (p : Bytes → Out (α × Bytes)) (g : α 
     ∀ (s q : Bytes) (a : β) (s' : Bytes), mapOut (fun x => (g x.1, x.2)) (p s) = .ok (a, s') →
       mapOut (fun x => (g x.1, x.2)) (p (s ++ q)) = .ok (a, s' ++ q) := by
   intro s q a s' h
-  rw [mapOut_ok] at h ⊢
+  rw [mapOut_eq_ok] at h ⊢
   obtain ⟨⟨a0, r⟩, h1, h2⟩ := h
   simp at h2
   obtain ⟨h2, h3⟩ := h2
@@ -174,7 +174,7 @@ theorem binRd_ext (e : Endian) (dpt : Nat) : (binRd e (some dpt)).Ext (fun s q =
   lb s q a s' h := Binary.readListBegin_ext q h
   mb s q a s' h := Binary.readMapBegin_ext q h
   skip t s q s' h := by
-    simp only [binRd, mapOut_ok] at h ⊢
+    simp only [binRd, mapOut_eq_ok] at h ⊢
     obtain ⟨⟨k, r⟩, hk, hr⟩ := h
     simp at hr; subst hr
     refine ⟨(k, r ++ q), ?_, rfl⟩
